@@ -134,6 +134,7 @@ def observe_apply(c, nv, ev=()):
 def impl(case):
     c = build(case)
     outs = []
+    bases = []          # templates left behind by `c = c.update_template(...)`, newest first
     for h in case["hist"] + [["obs"]]:
         try:
             if h[0] == "upd":
@@ -154,8 +155,11 @@ def impl(case):
                     kw["edges"] = [(s, t, None, {"weight": float(Fr(w))}) for s, t, w in h[3]]
                 res = c.update_template(in_place=bool(h[1]), **kw)
                 if not h[1]:
+                    bases.insert(0, c)
                     c = res
                 outs.append("ok")
+            elif h[0] == "obsbase":
+                outs.append(observe_final(bases[h[1]]) if h[1] < len(bases) else {"raised": "IndexError"})
             else:
                 outs.append(observe_final(c))
         except (KeyError, IndexError) as e:
@@ -269,6 +273,7 @@ def gen_case(rng, maxlen):
                 e = [rng.choice(srcs), rng.choice(tgts), dy8(rng, 1, 32)]
                 if circs[ci]["leaf"] or e[0].split("/")[0] != e[1].split("/")[0] or rng.random() < 0.5:
                     circs[ci]["edges"].append(e)
+    allpool = {}        # level -> circuits of that level created so far (shared ACROSS parents as well)
     def inner(level):
         """a circuit whose children are circuits of hierarchy depth level-1 (objects may be shared: D27 class)"""
         kids = []
@@ -276,11 +281,14 @@ def gen_case(rng, maxlen):
         for k in ["c1", "c2", "c3"][:rng.randint(2, 3)]:
             if pool and rng.random() < 0.15:
                 kids.append([k, rng.choice(pool)])
+            elif allpool.get(level - 1) and rng.random() < 0.25:
+                kids.append([k, rng.choice(allpool[level - 1])])       # an object that (also) belongs to another parent
             else:
                 j = leaf() if level == 1 else inner(level - 1)
                 if circs[j]["leaf"]:
                     add_edges(j, rng.randint(0, 2))
                 pool.append(j)
+                allpool.setdefault(level - 1, []).append(j)
                 kids.append([k, j])
         circs.append(dict(leaf=False, children=kids, edges=[]))
         ci = len(circs) - 1
@@ -327,8 +335,11 @@ def gen_case(rng, maxlen):
             return pat, ops[oi]["name"], var, dy8(rng), n
         return None
     hist = []
+    nbases = [0]
     for _ in range(rng.randint(2, maxlen)):
         r = rng.random()
+        if nbases[0] and rng.random() < 0.25:
+            hist.append(["obsbase", rng.randrange(nbases[0] + (1 if rng.random() < 0.05 else 0))])
         if r < 0.6:
             keys = []
             for _ in range(1 if rng.random() < 0.7 else 2):
@@ -379,6 +390,8 @@ def gen_case(rng, maxlen):
                 rootc["edges"] = rootc["edges"] + es
             if adds or es:
                 hist.append(["updtpl", inpl, adds, es])
+                if not inpl and not (depth >= 1 and adds):
+                    nbases[0] += 1
         else:
             keys = []
             for _ in range(rng.randint(1, 2)):
@@ -394,6 +407,8 @@ def gen_case(rng, maxlen):
                 else:
                     ev.append(["A/op/x", "Z/op/u", "1"])                 # no such edge: ignored
             hist.append(["apply", keys, ev])
+    if nbases[0] and rng.random() < 0.7:
+        hist.append(["obsbase", rng.randrange(nbases[0])])
     case["hist"] = hist
     return case
 
@@ -491,6 +506,9 @@ def coq_case(case, outs):
         elif h[0] == "edge":
             ops.append(f"UpdEdge {cstr(h[1])} {cstr(h[2])} [({cstr('weight')}, {cval(h[3])})]")
             pys.append("PDone" if r == "ok" else "PRaised")
+        elif h[0] == "obsbase":
+            ops.append(f"ObserveBase {cnat(h[1])}")
+            pys.append(coq_obs(r) if isinstance(r, dict) and "keys" in r else "PRaised")
         elif h[0] == "updtpl":
             adds = clist([f"({cstr(name)}, {cpath(path)})" for name, path in h[2]])
             es = clist([f"({cstr(s)}, {cstr(t)}, [({cstr('weight')}, {cval(w)})])" for s, t, w in h[3]])
@@ -577,7 +595,7 @@ def check(ctx):
              shrink=lambda c: shrink(ctx, c),
              show=lambda c: (lambda r: dict(implementation_output=r, model_output=model_outputs(ctx, c, r, "show") if not isinstance(r, dict) else None))(fails(ctx, c, "show")[1]))
     nt = {canon(c) for c in cases if nontrivial(c)}
-    kinds = dict(upd=0, edge=0, apply=0, updtpl=0, array_values=0, edge_values=0, wildcard=0, raising=0, initial_value=0)
+    kinds = dict(upd=0, edge=0, apply=0, updtpl=0, obsbase=0, array_values=0, edge_values=0, wildcard=0, raising=0, initial_value=0)
     for c, o in zip(cases, outs):
         for h in c["hist"]:
             kinds[h[0]] += 1
@@ -595,8 +613,8 @@ def check(ctx):
     write_evidence(ctx, evaluations=len(cases), distinct_nontrivial=len(nt),
                    rule="random histories (update_var with scalar and per-node array values, wildcard paths, constants and initial values; "
                         "arrays whose length differs from the number of addressed nodes; apply(node_values, edge_values); root edge-weight updates; "
-                        "update_template chains (new nodes / edges, with and without in_place); raising calls) on circuits of hierarchy depth 0-2 built from ONE "
-                        "OperatorTemplate object per name (some constants declared in explicit dict form), shared NodeTemplate objects and sub-circuit objects registered under several names (D27/D47 class); dyadic values; "
+                        "update_template chains (new nodes / edges, with and without in_place) with later compilation of the base templates left behind; raising calls) on circuits of hierarchy depth 0-2 built from ONE "
+                        "OperatorTemplate object per name (some constants declared in explicit dict form), shared NodeTemplate objects and sub-circuit objects registered under several names of one parent or under different parents (D27/D47 class); dyadic values; "
                         "a history is non-trivial when it has >= 2 operations and some template object has two owners; distinct = distinct canonical JSON",
                    samples=[dict(cases[0], hist=cases[0]["hist"][:4])] if cases else [],
                    extra=dict(input_distribution=hist, impl_vs_model_mismatches=len(badI), impl_vs_spec_mismatches=len(badS)),
